@@ -651,7 +651,7 @@ func (c *FnCtx) applySpecFunc(p *Pkg, fd *ast.FuncDecl, fobj *types.Func, args [
 		c.declareFun(fn, argSorts, c.tt.sortOf(sig.Results().At(0).Type()))
 		return app(fn, args...)
 	}
-	if sf := c.prog.SpecFns[key]; sf != nil && sf.Opaque && !c.revealed[fd.Name.Name] {
+	if sf := c.prog.SpecFns[key]; sf != nil && sf.Opaque && !c.revealed[fd.Name.Name] && c.unroll == 0 {
 		return c.applyOpaque(p, fd, sig, key, args, st)
 	}
 	if c.inlineDepth > 24 {
